@@ -716,6 +716,29 @@ class C17:
                             for cfg in ("00", "11", "10"):
                                 lines.append(f"dec {cfg} - {hexs(prog)}")
                                 meta.append((op, cfg, depth, is_tuple_atom, kind))
+        # the unhashable object far from the start of a wide tuple / of Call arguments, and very deep inside
+        # Tuple / Ref / Call wrappers: hashability must be decided by the whole key
+        def dict_progs(key):
+            return {"DICT": b"(" + key + b"NK\x09Nd.", "SETITEM": b"}" + key + b"Ns.", "SETITEMS": b"}(K\x01N" + key + b"Nu."}
+        for atom in atoms[:3] + [atoms[5]]:
+            for pos in (1, 7, 8, 15, 16, 17, 31, 32, 33, 63, 64, 65, 127, 128, 255, 256, 257, 1000, 4100):
+                if not ctx.thorough and pos > 300 and atom != atoms[0]:
+                    continue
+                for tail in (0, 1, 20):
+                    items = b"K\x01" * pos + atom + b"N" * tail
+                    for kind, key in (("wide-tuple", b"(" + items + b"t"), ("wide-call", b"cmod\nfn\n(" + items + b"tR"),
+                                      ("wide-tuple-in-tuple", b"(" + items + b"t\x85")):
+                        for op, prog in dict_progs(key).items():
+                            for cfg in ("00", "10"):
+                                lines.append(f"dec {cfg} - {hexs(prog)}")
+                                meta.append((op, cfg, pos, False, kind))
+            for depth in (4, 5, 8, 16, 31, 32, 33, 63, 64, 65, 99, 100, 101, 102, 127, 128, 129, 255, 256, 257, 600):
+                for kind in ("t1", "ref", "call", "t2", None):
+                    key = wrap_key(atom, depth, kind, rng)
+                    for op, prog in dict_progs(key).items():
+                        for cfg in ("00", "10"):
+                            lines.append(f"dec {cfg} - {hexs(prog)}")
+                            meta.append((op, cfg, depth, False, "deep-" + str(kind)))
         for _ in range(ctx.scale(400, 10000)):
             g = P.ProgGen(rng, wellformed=True, allow_unhashable_keys=0.5, colliding=0.2, maxops=rng.choice([10, 25]))
             cfg = rng.choice(CFGS)
@@ -739,6 +762,13 @@ class C17:
         dl, dm = [], []
         bad_keys = ["l( )", "A01", "t( l( I1 ) )", "t( I1 t( A- ) )", "c( C6d.6e l( ) )", "R( l( ) )", "R( t( A01 ) )", "d( )",
                     "m( )", "t( d( ) )", "t( t( t( l( ) ) ) )"]
+        for pos in (15, 16, 17, 40, 300):
+            bad_keys.append("t( " + "I1 " * pos + "l( ) N )")
+            bad_keys.append("c( C6d.6e " + "I1 " * pos + "A01 )")
+        for depth in (50, 100, 101, 130, 300):
+            bad_keys.append("t( " * depth + "l( ) " + ") " * depth)
+            bad_keys.append("R( " * depth + "A01 " + ") " * depth)
+        bad_keys = [k.strip() for k in bad_keys]
         for n in (0, 1, 100):
             pre = " ; ".join(f"S I{i} I{i * 2}" for i in range(n))
             for k in bad_keys:
@@ -768,12 +798,14 @@ class C17:
 
 def enc_project(ans):
     """Order-independent view of an encoder answer (map / Dict iteration order is arbitrary):
-    OK -> sorted chunk multiset; ERR -> error class without the count of chunks already written."""
+    OK -> sorted chunk multiset; ERR -> just "ERR": with several entries failing for different reasons, which
+    error is met first depends on the iteration order (the error named must still be one the value can cause;
+    the callers check that separately against the value)."""
     f = ans.split(" ")
     if f[0] == "OK":
         return "OK " + ",".join(sorted(f[1].split(","))) if len(f) > 1 else "OK"
     if f[0] == "ERR":
-        return " ".join(f[:2])
+        return "ERR"
     return ans
 
 
@@ -826,17 +858,37 @@ class C18:
             cfg = rng.choice(CFGS)
             lines.append(f"dech {cfg} {hook} {hexs(g.gen())}")
             meta.append(("dec", hook))
+        # protocol-0 ids exactly as written in the stream: everything up to the newline — carriage returns, ids
+        # longer than a bufio buffer, ids followed by more ids
+        ids = [b"a\r", b"\r", b"a\r\r", b"a\rb", b"", b" ", b"x" * 4094, b"x" * 4095, b"x" * 4096, b"x" * 4097, b"y" * 10000,
+               b"z" * 4095 + b"\r", b"\xc4\x80\r"]
+        for pid in ids:
+            for prog in (b"P" + pid + b"\n.", b"(P" + pid + b"\nPsecond\nI1\nt.", b"(lp0\nP" + pid + b"\naP" + pid + b"\na."):
+                for hook in ("-", "K", "R"):
+                    cfg = rng.choice(CFGS)
+                    lines.append(f"dech {cfg} {hook} {hexs(prog)}")
+                    meta.append(("dec-id", (hook, pid)))
         for v, pd, su in self.graphs(ctx, ctx.scale(500, 10000)):
             p = rng.randint(0, 5)
             rh = rng.choice(["-", "S", "S", "T", "N", "E"])
             lines.append(f"enc {p} {int(su)} {rh} {V.render(v, sort=False)}")
             meta.append(("enc", (rh, p, v, pd, su)))
         go, lean = run_both(lines)
+        self.run_holders(ctx)
         rt_lines, rt_meta = [], []
         for line, (kind, info), g, l in zip(lines, meta, go, lean):
             ctx.evaluations += 1
             ctx.nontrivial(line)
-            if kind == "dec":
+            if kind == "dec-id":
+                hook, pid = info
+                ctx.tie(line[:300], g, l)
+                ctx.count(f"explicit-id:hook={hook}")
+                want = "R( S" + (hexs(pid) if pid else "-") + " )"
+                where = g.partition(" ; ")[2] if hook != "-" else g
+                if want not in where:
+                    ctx.violate("the persistent id handed to PersistentLoad / kept in the Ref is not the id in the stream",
+                                line[:300], want[:200], g[:300])
+            elif kind == "dec":
                 ctx.tie(line, g, l)
                 res, _, calls = g.partition(" ; ")
                 ncalls = calls.count("R( ")
@@ -865,13 +917,63 @@ class C18:
                 ctx.count("roundtrip-inverse-hooks")
                 ctx.tie(cl, g, l)
                 res = g.partition(" ; ")[0]
-                want = V.render(v)
+                # float text at protocol 0 keeps NaN-ness, not the payload ("FNaN")
+                vn = V.mapv(v, lambda x: ("D", 0x7ff8000000000001) if p == 0 and x[0] == "D" and V.is_nan_bits(x[1]) else x)
+                want = V.render(vn)
                 got = res[3:].rsplit(" ", 1)[0] if res.startswith("OK ") else res
                 if got != want and not self._expected_normalisation(v, p):
                     ctx.violate("Encode with PersistentRef followed by Decode with the inverse PersistentLoad did not restore the graph",
                                 cl[:3000], want[:1500], got[:1500])
         for i in range(0, len(lines), max(1, len(lines) // 8)):
             ctx.sample(lines[i][:300] + " -> " + go[i][:200])
+
+    def run_holders(self, ctx):
+        """Mapped application objects reachable only through a pointer-typed field of another application struct
+        (held by pointer, by value, with tagged fields; at top level and inside lists / tuples / maps): the encoder
+        must consult PersistentRef there too. Implementation only (the struct encodes like a map with its field
+        names as keys, so the expected round-trip result is known without the model)."""
+        rng = ctx.rng
+        cases = []
+        for _ in range(ctx.scale(300, 5000)):
+            pd, su = rng.random() < 0.5, rng.random() < 0.5
+            g = V.ValueGen(rng, pydict=pd, su=su, canonical=True, maxdepth=2, allow_refs=False, allow_bad_class=False)
+            inner = g.value()
+            kind = rng.choice(["H", "h", "G"])
+            x = ("X", rng.randint(0, 9)) if rng.random() < 0.85 else ("Nil",)
+            h = (kind, inner, x)
+            names = (b"a", b"b") if kind == "G" else (b"A", b"B")
+            want_h = ("d" if pd else "m", [(("S", names[0]), inner), (("S", names[1]), x if x[0] == "X" else ("N",))])
+            shape = rng.choice(["top", "list", "tuple", "nested"])
+            if shape == "top":
+                v, want = h, want_h
+            elif shape == "list":
+                v, want = ("l", [("X", 1), h, ("I", 5)]), ("l", [("X", 1), want_h, ("I", 5)])
+            elif shape == "tuple":
+                v, want = ("t", [h, h]), ("t", [want_h, want_h])
+            else:
+                v, want = ("H", h, ("X", 2)), ("d" if pd else "m", [(("S", b"A"), want_h), (("S", b"B"), ("X", 2))])
+            cases.append((rng.randint(0, 5), pd, su, v, want))
+        go = C.run_sharded(C.run_go, [f"enc {p} {int(su)} S {V.render(v, sort=False)}" for p, pd, su, v, want in cases])
+        rt, rtm = [], []
+        for (p, pd, su, v, want), g in zip(cases, go):
+            ctx.evaluations += 1
+            ctx.count("holder:enc:" + g.split(" ")[0])
+            if "PANIC" in g:
+                ctx.violate("Encode panicked on an application struct", V.render(v, sort=False)[:1500], "bytes", g[:300])
+            if g.startswith("OK "):
+                data = bytes.fromhex("".join(c for c in g[3:].split(" ")[0].split(",") if c != "-"))
+                rt.append(f"dech {int(pd)}{int(su)} I {hexs(data)}")
+                rtm.append((p, v, want))
+        rgo = C.run_sharded(C.run_go, rt)
+        for line, (p, v, want), g in zip(rt, rtm, rgo):
+            ctx.evaluations += 1
+            ctx.nontrivial(line)
+            res = g.partition(" ; ")[0]
+            wn = V.mapv(want, lambda x: ("D", 0x7ff8000000000001) if p == 0 and x[0] == "D" and V.is_nan_bits(x[1]) else x)
+            got = res[3:].rsplit(" ", 1)[0] if res.startswith("OK ") else res
+            if got != V.render(wn):
+                ctx.violate("an application object held in a pointer field was not written as its persistent reference / not restored",
+                            f"protocol {p}: " + V.render(v, sort=False)[:1500] + "  ->  " + line[:600], V.render(wn)[:1200], got[:1200])
 
     @staticmethod
     def _expected_normalisation(v, p):
